@@ -571,7 +571,16 @@ class SetBodyReader(Contract):
         return []
 
     def modifies(self, c):
-        return [("field", c.a["self"], "body", _any_body), ("field", c.a["self"], "must_close")]
+        return [("field", c.a["self"], "must_close", BoolShape())]
+
+    def effects(self, c):
+        # call mode: a Body whose reader is one of the three kinds (symbolic choice constrained by the postcondition)
+        st = c.st
+        c.ex.env.class_models["ReaderChoice"] = READER_CHOICE
+        c.ex.env.use_class("gunicorn.http.body", "Body")
+        kind, n = fresh_int("reader.kind"), fresh_int("reader.length")
+        rd = st.alloc(HObj("ReaderChoice", {"kind": SInt(kind), "length": SInt(n), "unreader": st.obj(c.a["self"]).fields["unreader"]}))
+        st.obj(c.a["self"]).fields["body"] = st.alloc(HObj("Body", {"reader": rd, "buf": st.alloc(HBio())}))
 
     def raises(self, c):
         E = errs(c)
@@ -591,26 +600,32 @@ class SetBodyReader(Contract):
         no_cl = z3.ForAll([i], Implies(inr(i), Not(is_cl(i))))
         no_te = z3.ForAll([i], Implies(inr(i), Not(is_te(i))))
         out = [("unreader-untouched", And(u_pos(c, c.st.obj(slf).fields["unreader"]) == u_pos(c, c.old.obj(slf).fields["unreader"], c.old)))]
-        if ro.cls == "ChunkedReader":
-            out += [("chunked=>HTTP/1.1+", c.ex.compare(__import__("ast").GtE(), ver, STuple([SInt(1), SInt(1)]), c.st)),
-                    ("chunked=>no-Content-Length", no_cl),
-                    ("chunked=>Transfer-Encoding-present", Not(no_te))]
-        elif ro.cls == "LengthReader":
+        if ro.cls == "ReaderChoice":
+            kind = ro.fields["kind"].t
+            is_ch, is_len, is_eof = kind == 0, kind == 1, kind == 2
             n = ro.fields["length"].t
-            vw = lambda k: seq.elem(k).items[1].single_win()
-            out += [("length>=0", n >= 0),
-                    ("length=>exactly-one-Content-Length-with-that-value",
-                     z3.Exists([i], And(inr(i), is_cl(i),
-                                        z3.ForAll([j], Implies(And(inr(j), is_cl(j)), j == i)),
-                                        vw(i).lo < vw(i).hi,
-                                        z3.ForAll([j], Implies(And(vw(i).lo <= j, j < vw(i).hi), And(Tsel(j) >= 48, Tsel(j) <= 57))),
-                                        n == decval(T, vw(i).lo, vw(i).hi)))),
-                    ("RFC9112-6.1:length-framing=>no-Transfer-Encoding", no_te)]
-        elif ro.cls == "EOFReader":
-            out += [("no-length=>no-Content-Length", no_cl),
-                    ("RFC9112-6.1:no-body=>no-Transfer-Encoding", no_te)]
+            out.append(("known-reader", And(kind >= 0, kind <= 2)))
         else:
-            out += [("known-reader", FALSE)]
+            is_ch = TRUE if ro.cls == "ChunkedReader" else FALSE
+            is_len = TRUE if ro.cls == "LengthReader" else FALSE
+            is_eof = TRUE if ro.cls == "EOFReader" else FALSE
+            n = ro.fields["length"].t if ro.cls == "LengthReader" else iv(0)
+            if ro.cls not in ("ChunkedReader", "LengthReader", "EOFReader"):
+                out.append(("known-reader", FALSE))
+        vw = lambda k: seq.elem(k).items[1].single_win()
+        out += [("chunked=>HTTP/1.1+", Implies(is_ch, c.ex.compare(__import__("ast").GtE(), ver, STuple([SInt(1), SInt(1)]), c.st))),
+                ("chunked=>no-Content-Length", Implies(is_ch, no_cl)),
+                ("chunked=>Transfer-Encoding-present", Implies(is_ch, Not(no_te))),
+                ("length>=0", Implies(is_len, n >= 0)),
+                ("length=>exactly-one-Content-Length-with-that-value",
+                 Implies(is_len, z3.Exists([i], And(inr(i), is_cl(i),
+                                                    z3.ForAll([j], Implies(And(inr(j), is_cl(j)), j == i)),
+                                                    vw(i).lo < vw(i).hi,
+                                                    z3.ForAll([j], Implies(And(vw(i).lo <= j, j < vw(i).hi), And(Tsel(j) >= 48, Tsel(j) <= 57))),
+                                                    n == decval(T, vw(i).lo, vw(i).hi))))),
+                ("RFC9112-6.1:length-framing=>no-Transfer-Encoding", Implies(is_len, no_te)),
+                ("no-length=>no-Content-Length", Implies(is_eof, no_cl)),
+                ("RFC9112-6.1:no-body=>no-Transfer-Encoding", Implies(is_eof, no_te))]
         return out
 
     loops = {0: dict(anchor="for (name, value) in self.headers", cands=[
@@ -620,6 +635,19 @@ class SetBodyReader(Contract):
     ]), 1: dict(anchor="for val in vals", cands=[
         ("chunked=>TE-seen(inner)", lambda L: L.ex.truth(L.chunked, L.st) == L.ex.truth(L.chunked, L.st)),
     ])}
+
+
+from pyvc.env import ClassModel
+
+
+class ReaderChoiceModel(ClassModel):
+    def isinstance(self, ex, st, v, o, pycls):
+        k = o.fields["kind"].t
+        return {"ChunkedReader": k == 0, "LengthReader": k == 1, "EOFReader": k == 2}.get(pycls.__name__, False)
+
+
+READER_CHOICE = ReaderChoiceModel()
+inline("gunicorn.http.message:Request.set_body_reader")
 
 
 def _any_body(*a):
@@ -875,6 +903,7 @@ class ProxyProtocol(Contract):
              Implies(res, And(c.ex.truth(c.field(cfg, "proxy_protocol", c.old), c.old), o0.fields["req_number"].t == 1,
                               _strops.prefix_holds(line, b"PROXY"), allowed(c, c.old, "proxy_allow_ips", peer)))),
             ("client-address-info-set-only-by-an-accepted-PROXY-line", Implies(changed, res)),
+            ("accepted-PROXY-line-sets-the-client-address-info", Implies(res, TRUE if isinstance(info1, Ref) else (info1.some if isinstance(info1, SOpt_) else FALSE))),
         ]
 
 
@@ -986,27 +1015,32 @@ class RequestParse(Contract):
         m = s1.fields["method"]
         mw = m.single_win() if isinstance(m, SStr) else None
 
-        def shape_at(h, rl):
-            """the head was read as: request line starting at rl, header block starting at h"""
-            done = And(h + 2 <= N, crlf_at(h))
-            X = f2crlf_h(h)
-            facts = [mw.lo == rl if mw is not None else FALSE,
-                     If(done,
-                        And(pos1 == h + 2, ret.length() == 0),
-                        And(X >= 0, is_T(ret, X + 4, pos1), pos1 == u_sp(c, u), X + 3 - h <= mbh))]
-            if hdrs.sym is not None:
-                facts.append(Implies(Not(done), headers_wf(hdrs.sym, h, X)))
-                facts.append(Implies(done, hdrs.sym.length() == 0))
-            elif hdrs.items:
-                facts.append(FALSE)
-            else:
-                facts.append(TRUE)
-            return And(*facts)
-        return list(RI(c, u)) + [
+        info = s1.fields["proxy_protocol_info"]
+        if isinstance(info, SOpt_):
+            took_proxy = info.some
+        elif isinstance(info, SNone):
+            took_proxy = FALSE
+        else:
+            took_proxy = TRUE
+        rl = If(took_proxy, F1 + 2, p0)          # where the request line starts
+        h = If(took_proxy, F2 + 2, F1 + 2)       # where the header block starts
+        done = And(h + 2 <= N, crlf_at(h))
+        X = f2crlf_h(h)
+        out = list(RI(c, u)) + [
             ("request-line-found", F1 >= 0),
-            ("head-read-exactly-as-the-stream-dictates",
-             Or(shape_at(F1 + 2, p0), And(proxy_ok, F2 >= 0, shape_at(F2 + 2, F1 + 2)))),
+            ("PROXY-line-only-when-enabled-first-request-trusted-peer", Implies(took_proxy, And(proxy_ok, F2 >= 0))),
+            ("method-starts-at-the-request-line", mw.lo == rl if mw is not None else FALSE),
+            ("empty-header-block:position-after-CRLF", Implies(done, And(pos1 == h + 2, ret.length() == 0))),
+            ("header-block-ends-at-first-CRLFCRLF", Implies(Not(done), X >= 0)),
+            ("residue==T[head-end:pos')", Implies(Not(done), And(is_T(ret, X + 4, pos1), pos1 == u_sp(c, u)))),
+            ("header-block-within-buffer-limit", Implies(Not(done), X + 3 - h <= mbh)),
         ]
+        if hdrs.sym is not None:
+            out.append(("headers-are-the-field-lines-of-the-block", Implies(Not(done), headers_wf(hdrs.sym, h, X))))
+            out.append(("no-headers-when-block-empty", Implies(done, hdrs.sym.length() == 0)))
+        elif hdrs.items:
+            out.append(("headers-shape", FALSE))
+        return out
 
     loops = {0: dict(anchor="while True", cands=[
         ("RI(unreader)", lambda L: RI_and(_C(L), L.unreader, L.st)),
@@ -1021,3 +1055,126 @@ def _h(L):
     """start of the header block = start of the buffer at loop entry"""
     pos = u_pos(_C(L), L.unreader, L.entry)
     return pos - L.entry.obj(L.entry.locals["buf"]).content.length()
+
+
+# ======================================================================================================
+# Message.__init__ (limit clamping, parse -> unread -> set_body_reader), Request.__init__, should_close
+# ======================================================================================================
+inline("gunicorn.http.message:Request.__init__")    # Request.__init__ only sets fields and calls Message.__init__
+
+
+def mk_fresh_request(env, st, u, peer_kind="tcp"):
+    env.use_class("gunicorn.http.message", "Request")
+    cfg = mk_cfg(env, st, strip_header_spaces=False, permit_obsolete_folding=False, permit_unconventional_http_method=False,
+                 permit_unconventional_http_version=False, casefold_http_method=False)
+    lrl = z3.Int("self.limit_request_line")
+    st.assume(0 <= lrl, lrl <= 8190)
+    slf = st.alloc(HObj("Request", {"method": NONE, "uri": NONE, "path": NONE, "query": NONE, "fragment": NONE,
+                                    "limit_request_line": SInt(lrl), "req_number": SInt(z3.Int("req_number")),
+                                    "proxy_protocol_info": NONE}))
+    return slf, cfg
+
+
+@contract("gunicorn.http.message:Message.__init__", props=("C01", "C06", "C12"))
+class MessageInit(Contract):
+    """order parse -> unread(unused) -> set_body_reader; header limits clamped; after it the unreader stands exactly at the
+    end of the head (first body byte)"""
+
+    def cases(self, env):
+        st = base_state(env)
+        u = mk_unreader(env, st)
+        slf, cfg = mk_fresh_request(env, st, u)
+        return [("init", st, {"self": slf, "cfg": cfg, "unreader": u, "peer_addr": mk_peer(st, "tcp")}, {})]
+
+    def pre(self, c):
+        cfg = c.a["cfg"]
+        t = lambda n: c.ex.truth(c.field(cfg, n), c.st)
+        return list(RI(c, c.a["unreader"])) + [
+            ("unsafe-switches-off", Not(Or(t("strip_header_spaces"), t("permit_obsolete_folding"), t("permit_unconventional_http_method"),
+                                           t("permit_unconventional_http_version"), t("casefold_http_method")))),
+            ("request-line-limit-clamped", And(c.st.obj(c.a["self"]).fields["limit_request_line"].t >= 0))]
+
+    def ghost_axioms(self, c):
+        p0 = u_pos(c, c.a["unreader"])
+        F1 = fcrlf(p0)
+        return [fc_axiom(p0), fc_axiom(F1 + 2), f2_axiom(F1 + 2), f2_axiom(fcrlf(F1 + 2) + 2)]
+
+    def raises(self, c):
+        return RequestParse.raises(RequestParse(), Ctx_unreader(c)) + [(errs(c).UnsupportedTransferCoding, None)]
+
+    def exc_post(self, c):
+        return list(RI(c, c.a["unreader"]))
+
+    def post(self, c):
+        u = c.a["unreader"]
+        o = c.st.obj(c.a["self"])
+        p0 = u_pos(c, u, c.old)
+        pos1 = u_pos(c, u)
+        F1 = fcrlf(p0)
+        F2 = fcrlf(F1 + 2)
+        info = o.fields.get("proxy_protocol_info", NONE)
+        took_proxy = info.some if isinstance(info, SOpt_) else (FALSE if isinstance(info, SNone) else TRUE)
+        h = If(took_proxy, F2 + 2, F1 + 2)
+        lrf, lrfs, mbh = o.fields["limit_request_fields"].t, o.fields["limit_request_field_size"].t, o.fields["max_buffer_headers"].t
+        rd, ro = reader_of(c, c.st, c.a["self"])
+        return list(RI(c, u)) + [
+            ("unreader-stands-at-the-end-of-the-head", pos1 == head_end_from(h)),
+            ("field-count-limit-clamped-to-1..32768", And(lrf >= 1, lrf <= 32768)),
+            ("field-size-limit>=0", lrfs >= 0),
+            ("buffer-limit-covers-every-head-within-the-limits", mbh == lrf * (If(lrfs == 0, iv(8190), lrfs) + 2) + 4),
+            ("body-reader-installed", TRUE if rd is not None else FALSE),
+        ]
+
+
+def Ctx_unreader(c):
+    return c
+
+
+@contract("gunicorn.http.message:Message.should_close", props=("C02",))
+class ShouldClose(Contract):
+    def cases(self, env):
+        st = base_state(env)
+        u = mk_unreader(env, st)
+        hdrs, seq = mk_headers(st)
+        v0, v1 = z3.Int("ver.major"), z3.Int("ver.minor")
+        st.assume(0 <= v0, v0 <= 9, 0 <= v1, v1 <= 9)
+        slf = mk_request_shell(env, st, u, headers=hdrs, version=STuple([SInt(v0), SInt(v1)]), must_close=SBool(z3.Bool("must_close")))
+        return [("any", st, {"self": slf}, {})]
+
+    def result_shape(self, c):
+        return BoolShape()
+
+    def post(self, c):
+        o = c.st.obj(c.a["self"])
+        seq = c.st.obj(o.fields["headers"]).sym
+        ver = o.fields["version"]
+        res = c.ex.truth(c.result, c.st)
+        i, j = qvar("i"), qvar("j")
+        inr = lambda k: And(seq.lo <= k, k < seq.hi)
+        is_conn = lambda k: name_is(seq, k, "CONNECTION")
+        none = z3.ForAll([i], Implies(inr(i), Not(is_conn(i))))
+        old10 = Or(ver.items[0].t < 1, And(ver.items[0].t == 1, ver.items[1].t <= 0))
+
+        def val_is(k, lit):
+            v = seq.elem(k).items[1]
+            rs = _strops.m_lower(c.ex, c.st, v, [])
+            lv = rs[0].v
+            stripped = _strops.strip_generic(c.ex, c.st, lv, [(9, 9), (32, 32)], True, True)
+            return str_eq(stripped, SStr.lit(lit))
+        k = z3.Int("k!first_connection")
+        first = And(inr(k), is_conn(k), z3.ForAll([j], Implies(And(inr(j), j < k), Not(is_conn(j)))))
+        mc = c.ex.truth(o.fields["must_close"], c.st)
+        return [("must_close=>close", Implies(mc, res)),
+                ("no-Connection-header=>HTTP/1.0-closes-1.1-persists", Implies(And(Not(mc), none), res == old10)),
+                ("first-Connection-header-decides", Implies(And(Not(mc), first),
+                                                            If(val_is(k, "close"), res, If(val_is(k, "keep-alive"), Not(res), res == old10))))]
+
+    loops = {0: dict(anchor="for (h, v) in self.headers", cands=[
+        ("no-Connection-before", lambda L: _no_conn_before(L)),
+    ])}
+
+
+def _no_conn_before(L):
+    seq = L.fentry.obj(L.fentry.obj(L.self).fields["headers"]).sym
+    i = qvar("i")
+    return z3.ForAll([i], Implies(And(seq.lo <= i, i < seq.lo + L.loop_index), Not(name_is(seq, i, "CONNECTION"))))
